@@ -173,15 +173,15 @@ Section Hist.
   Hypothesis law : recover_law I.
 
   Lemma setargs_other (w : world I) cl f :
-    f <> ArgNref -> f <> ArgL -> f <> ArgCut -> setargs w cl f = w f.
+    f <> ArgNref -> f <> ArgL -> f <> ArgCut -> f <> ArgUnits -> setargs w cl f = w f.
   Proof.
-    intros H1 H2 H3. unfold setargs, upd.
-    rewrite (field_eqb_neq _ _ H3), (field_eqb_neq _ _ H2), (field_eqb_neq _ _ H1). reflexivity.
+    intros H1 H2 H3 H4. unfold setargs, upd.
+    rewrite (field_eqb_neq _ _ H4), (field_eqb_neq _ _ H3), (field_eqb_neq _ _ H2), (field_eqb_neq _ _ H1). reflexivity.
   Qed.
-  Lemma input_not_arg f : is_input f = true -> f <> ArgNref /\ f <> ArgL /\ f <> ArgCut.
+  Lemma input_not_arg f : is_input f = true -> f <> ArgNref /\ f <> ArgL /\ f <> ArgCut /\ f <> ArgUnits.
   Proof. intro H. repeat split; intro E; subst; discriminate H. Qed.
   Lemma setargs_input (w : world I) cl f : is_input f = true -> setargs w cl f = w f.
-  Proof. intro H. destruct (input_not_arg f H) as (H1 & H2 & H3). now apply setargs_other. Qed.
+  Proof. intro H. destruct (input_not_arg f H) as (H1 & H2 & H3 & H4). now apply setargs_other. Qed.
   Lemma setargs_clean (w : world I) cl : clean w -> clean (setargs w cl).
   Proof. intros [H1 H2]. split; rewrite setargs_input; auto. Qed.
 
@@ -231,7 +231,7 @@ Section Hist.
 End Hist.
 
 (* ---- witnesses against the pinned variant (free interpretation) -------------------------------- *)
-Definition cl (s : shape) (n l cut : nat) : call := mkCall s n l cut.
+Definition cl (s : shape) (n l cut : nat) : call := mkCall s n l cut 0.
 
 Lemma w_init_clean : clean w_init.
 Proof. split; reflexivity. Qed.
